@@ -4,6 +4,7 @@ import (
 	"bufio"
 	"fmt"
 	"io"
+	"os"
 	"os/exec"
 	"strconv"
 	"strings"
@@ -27,6 +28,8 @@ type Solver struct {
 type SolverStats struct {
 	Sat, Unsat, Unknown int
 	Seconds             float64
+	BytesSent           int64
+	SendSeconds         float64
 }
 
 type Verdict int
@@ -67,6 +70,11 @@ func NewSolver(name string, timeoutMs int) (*Solver, error) {
 		return nil, err
 	}
 	s := &Solver{Name: name, cmd: cmd, in: in, out: bufio.NewReaderSize(out, 1<<16), defined: map[int32]bool{}, scopes: []map[int32]bool{{}}}
+	if p := os.Getenv("SYMGO_SOLVER_LOG"); p != "" {
+		if f, err := os.OpenFile(p, os.O_CREATE|os.O_EXCL|os.O_WRONLY, 0o644); err == nil {
+			s.log = f // only the first solver process wins the O_EXCL create
+		}
+	}
 	s.send("(set-option :produce-models true)\n")
 	if name == "cvc5" {
 		s.send("(set-logic QF_BV)\n")
@@ -88,7 +96,11 @@ func (s *Solver) send(str string) {
 	if s.log != nil {
 		io.WriteString(s.log, str)
 	}
-	if _, err := io.WriteString(s.in, str); err != nil {
+	s.Stats.BytesSent += int64(len(str))
+	t0 := time.Now()
+	_, err := io.WriteString(s.in, str)
+	s.Stats.SendSeconds += time.Since(t0).Seconds()
+	if err != nil {
 		panic(engineAbort{kind: abortSolver, msg: "solver write: " + err.Error()})
 	}
 }
